@@ -16,6 +16,7 @@ import (
 	"syscall"
 
 	"github.com/folbricht/desync"
+	"github.com/pkg/xattr"
 
 	"verif/harness/oracle"
 	"verif/harness/trace"
@@ -70,6 +71,13 @@ func snapshot(root, skip string) map[string]string {
 		case info.Mode().IsRegular():
 			b, _ := os.ReadFile(p)
 			desc += fmt.Sprintf(":%x", sha256.Sum256(b))
+		}
+		if names, xerr := xattr.LList(p); xerr == nil {
+			sort.Strings(names)
+			for _, n := range names {
+				v, _ := xattr.LGet(p, n)
+				desc += fmt.Sprintf(":%s=%x", n, v)
+			}
 		}
 		if rel == "." { // the sandbox root's own mtime changes when dst is created inside it: compare its entries only
 			desc = "root"
@@ -144,6 +152,12 @@ func build(root entry, es []entry) []byte {
 		case "link":
 			e.Filename(x.Name)
 			e.Entry(0120777, 0, 0, 1000000000)
+			e.Symlink(x.Target)
+		case "linkx": // a symlink entry that carries extended attributes
+			e.Filename(x.Name)
+			e.Entry(0120777, 0, 0, 1000000000)
+			e.Raw(16+uint64(len("user.planted\x00by-the-archive\x00")), 0xb8157091f80bc486, []byte("user.planted\x00by-the-archive\x00"))
+			e.Raw(16+uint64(len("trusted.planted\x00by-the-archive\x00")), 0xb8157091f80bc486, []byte("trusted.planted\x00by-the-archive\x00"))
 			e.Symlink(x.Target)
 		}
 	}
@@ -221,8 +235,8 @@ func main() {
 		k := 2 + r.Intn(5)
 		var es []entry
 		for j := 0; j < k; j++ {
-			e := entry{Name: []string{"a", "b", "a", "c"}[r.Intn(4)], Kind: []string{"dir", "file", "link", "link", "goodbye"}[r.Intn(5)]}
-			if e.Kind == "link" {
+			e := entry{Name: []string{"a", "b", "a", "c"}[r.Intn(4)], Kind: []string{"dir", "file", "link", "link", "goodbye", "linkx"}[r.Intn(6)]}
+			if e.Kind == "link" || e.Kind == "linkx" {
 				e.Target = []string{"OUT", "DST", "../out", "..", "OUT/secret", "a"}[r.Intn(6)]
 			}
 			es = append(es, e)
